@@ -3,7 +3,7 @@
    start with 1 (Some) or 0 (None / error).  The command numbers are read by tools/models.py
    from the CMD comments below. *)
 From Coq Require Import ZArith List Bool.
-From VV Require Import lib.PyInt lib.PyFloat gen.GenTables model.Driver.
+From VV Require Import lib.PyInt lib.PyFloat gen.GenTables model.Driver hw.Npu.
 Import ListNotations.
 Open Scope Z_scope.
 
@@ -24,7 +24,79 @@ Definition run_driver_parse (a : list Z) : list Z :=
   | None => [0]
   end.
 
+(* flat list helpers *)
+Fixpoint take_pairs (n : nat) (a : list Z) : list (Z * Z) * list Z :=
+  match n, a with
+  | S n', x :: y :: t => let '(ps, r) := take_pairs n' t in ((x, y) :: ps, r)
+  | _, _ => ([], a)
+  end.
+Fixpoint take_n (n : nat) (a : list Z) : list Z * list Z :=
+  match n, a with
+  | S n', x :: t => let '(xs, r) := take_n n' t in (x :: xs, r)
+  | _, _ => ([], a)
+  end.
+
+(* CMD check_bounds = 3 : ncores lut_addr shram_size nsz (rg sz)* nro ro* words -> [decoded?; ok?; first bad op index; n ops] *)
+Definition run_check_bounds (a : list Z) : list Z :=
+  match a with
+  | nc :: la :: ss :: nsz :: t =>
+      let '(sizes, t1) := take_pairs (Z.to_nat nsz) t in
+      match t1 with
+      | nro :: t2 =>
+          let '(ro, ws) := take_n (Z.to_nat nro) t2 in
+          let hw := {| hw_ncores := nc; hw_lut_addr := la; hw_shram_size := ss |} in
+          match run_stream ws with
+          | Some evs =>
+              [1; (if check_bounds hw sizes ro evs then 1 else 0); first_bad_op hw sizes ro evs 0;
+               Z.of_nat (List.length (filter (fun e => match e with EOp _ _ _ => true | _ => false end) evs))]
+          | None => [0]
+          end
+      | [] => [-1]
+      end
+  | _ => [-1]
+  end.
+
+Fixpoint flat_regs (r : regs) : list Z :=
+  match r with [] => [] | (k, v) :: t => k :: v :: flat_regs t end.
+Fixpoint flat_events (evs : list event) : list Z :=
+  match evs with
+  | [] => []
+  | EOp c p r :: t => 1 :: c :: p :: Z.of_nat (List.length r) :: flat_regs r ++ flat_events t
+  | EWait c p :: t => 2 :: c :: p :: flat_events t
+  | EStop p :: t => 3 :: p :: flat_events t
+  | EOther c p :: t => 4 :: c :: p :: flat_events t
+  end.
+
+(* CMD decode_stream = 4 : words -> 1 events... | 0 *)
+Definition run_decode_stream (a : list Z) : list Z :=
+  match run_stream a with Some evs => 1 :: flat_events evs | None => [0] end.
+
+Fixpoint flat_segs (l : list seg) : list Z :=
+  match l with [] => [] | (rg, lo, hi) :: t => rg :: lo :: hi :: flat_segs t end.
+
+(* CMD footprints = 5 : ncores lut_addr shram_size words -> per op: code param nreads (rg lo hi)* nwrites (rg lo hi)* *)
+Fixpoint flat_fps (hw : hwcfg) (evs : list event) : list Z :=
+  match evs with
+  | [] => []
+  | EOp c p r :: t =>
+      let fp := op_footprint hw c p r in
+      c :: p :: Z.of_nat (List.length (fp_reads fp)) :: flat_segs (fp_reads fp) ++
+      Z.of_nat (List.length (fp_writes fp)) :: flat_segs (fp_writes fp) ++ flat_fps hw t
+  | _ :: t => flat_fps hw t
+  end.
+Definition run_footprints (a : list Z) : list Z :=
+  match a with
+  | nc :: la :: ss :: ws =>
+      match run_stream ws with
+      | Some evs => 1 :: flat_fps {| hw_ncores := nc; hw_lut_addr := la; hw_shram_size := ss |} evs
+      | None => [0] end
+  | _ => [-1]
+  end.
+
 Definition run (cmd : Z) (a : list Z) : list Z :=
   if cmd =? 1 then run_driver_payload a
   else if cmd =? 2 then run_driver_parse a
+  else if cmd =? 3 then run_check_bounds a
+  else if cmd =? 4 then run_decode_stream a
+  else if cmd =? 5 then run_footprints a
   else [-1].
